@@ -36,3 +36,9 @@ func VerifSortPlugins(ps []Plugin) {
 func VerifTypesEq(this, that []types.Type) bool {
 	return eq(this, that)
 }
+
+// VerifGenerate runs the generate-until-done loop of a package (pkg.Generate) over the given
+// plugins, in the given order, and their generators.
+func VerifGenerate(plugins []Plugin, generators map[string]Generator) (bool, error) {
+	return (&pkg{plugins: plugins, generators: generators}).Generate()
+}
